@@ -159,6 +159,23 @@ pub fn gen_b5_text(rng: &mut Rng) -> String {
     s
 }
 
+/// block 1 as the library ACCEPTS it beyond the documented shape (for the accepted-text properties C02 / C08 only): the
+/// twelve address characters may end in blanks (a blank-padded BIC8)
+pub fn gen_b1_loose(rng: &mut Rng) -> String {
+    if rng.below(3) == 0 {
+        let keep = *rng.pick(&[8usize, 9, 11]);
+        let addr = format!("{:<12}", s_from(rng, ALNUM, keep));
+        format!("{}{}{}{}{}", rng.pick(&["F", "A", "L"]), rng.pick(&["01", "21"]), addr, s_from(rng, DIG, 4), s_from(rng, DIG, 6))
+    } else { gen_b1(rng) }
+}
+/// block 2 (input) whose destination address ends in blanks, else as `gen_b2`
+pub fn gen_b2_loose(rng: &mut Rng, code: &str) -> String {
+    if rng.below(4) == 0 {
+        let keep = *rng.pick(&[8usize, 9, 11]);
+        format!("I{code}{:<12}{}", s_from(rng, ALNUM, keep), rng.pick(&["N", "U", "S"]))
+    } else { gen_b2(rng, code) }
+}
+
 pub fn gen_b1(rng: &mut Rng) -> String {
     format!("{}{}{}{}{}", rng.pick(&["F", "A", "L"]), rng.pick(&["01", "21"]), s_from(rng, ALNUM, 12), s_from(rng, DIG, 4), s_from(rng, DIG, 6))
 }
